@@ -289,17 +289,18 @@ Proof.
   assert (H8 : core_same s7 s8 /\ frActive s8 = frActive s7 /\ frLast s8 = frLast s7).
   { subst s8. destruct (outstanding s7 <? 0); (split; [core_tac|split; reflexivity]). }
   destruct H8 as ((K1&K2&K3&K4&K5&K6&K7&K8&K9&K10) & Fa8 & Fl8).
-  exists k, m'. split; [lia|]. split; [right; exact Hk|].
+  exists k, m'. split; [clear - Hku; lia|]. split; [right; exact Hk|].
   pose proof (chain_le _ _ _ _ _ _ Hc'). pose proof (tail_ok_le _ _ _ _ _ _ Ht').
   cbn [SN set].
   split; [|split; congruence].
   unfold SInv, SL. cbv zeta. cbn [SN set].
   rewrite K1, K2, K3, K6, K7, K8, K9, Fa8, Fl8, D1, D2, D3, D6, D7, D8, D9, Fa7, Fl7, G1, G2, G3, G4, G5, G6, G7, G8, G9.
   split; [exact Hk|].
-  split; [split; [exact Hx|split; [eapply chain_mono; [|exact Hc']; lia|split; [eapply tail_ok_mono; [|exact Ht']; lia|lia]]]|].
-  split; [exact Hmp|]. split; [exact Hw|]. split; [lia|]. split; [exact Hsc|].
+  split; [split; [exact Hx|split; [eapply chain_mono; [|exact Hc']; apply Z.le_max_l
+                 |split; [eapply tail_ok_mono; [|exact Ht']; apply Z.le_max_l|clear - Hxb Hku; lia]]]|].
+  split; [exact Hmp|]. split; [exact Hw|]. split; [clear - HE Hku Hw; lia|]. split; [exact Hsc|].
   intros Ha. destruct (Hfrk Ha) as (fl & F1 & F2 & F3). exists fl. split; [exact F1|].
-  specialize (F3 k Hk ltac:(lia)). lia.
+  specialize (F3 k Hk ltac:(clear - Hku; lia)). clear - F2 F3 Hku. lia.
 Qed.
 
 Lemma rttStart_fr t ack r : frActive (rttStart t ack r) = frActive (SN t) /\ frLast (rttStart t ack r) = frLast (SN t).
